@@ -647,6 +647,168 @@ def o5(h):
     px.run_px(h, 'objective', make_objective_follows_p_harness(), cap=60)
 
 
+# ------------------------------------------------------------------------------------------ O7: the Objective classes in PX
+class _UFun:
+    """an arbitrary function of (point, parameter vector): fresh values per call, functionally consistent over BOTH arguments"""
+
+    def __init__(self, ex, tag, n_out):
+        self.ex, self.tag, self.n_out, self.calls = ex, tag, n_out, []
+
+    def __call__(self, x, p):
+        ex = self.ex
+        val = ex.vec(self.tag, self.n_out) if self.n_out else ex.real(self.tag)
+        key = list(onp.asarray(x, dtype=object).reshape(-1)) + list(onp.asarray(p, dtype=object).reshape(-1))
+        if ex.symbolic:
+            for k2, v2 in self.calls:
+                cond = same_arg(key, k2)
+                for a, b in zip(onp.asarray(val, dtype=object).reshape(-1), onp.asarray(v2, dtype=object).reshape(-1)):
+                    ex.pc.append(z3.Implies(cond, px._z(a) == px._z(b)))
+        else:
+            for k2, v2 in self.calls:
+                if all(float(a) == float(b) for a, b in zip(key, k2)):
+                    return v2
+        self.calls.append((key, val))
+        return val
+
+
+def _load_objective_px(ex, n):
+    """the REAL source of optimism/Objective.py in PX: jit is the identity, grad(f, k) of the energy is an arbitrary function of
+    (x, p) (k = 0: n values), the other transformations are only constructed, never evaluated here; SparseCholesky and scipy.sparse
+    are inert stand-ins (the preconditioner is not the subject)"""
+    from . import c19
+    f = _UFun(ex, 'f', 0)
+    g0 = _UFun(ex, 'gx', n)
+    g1 = _UFun(ex, 'gp', n)
+
+    def grad(fun, argnums=0):
+        return g0 if argnums == 0 else g1
+
+    def _never(*a, **k):
+        raise px.Unsupported('a JAX transformation other than grad was evaluated inside Objective (not modelled in O7)')
+
+    class _NPS:
+        shape = staticmethod(onp.shape)
+
+        def __getattr__(self, name):
+            return getattr(c19.NPX, name)
+
+    class _Chol:
+        def update(self, *a, **k):
+            pass
+
+    class _Diag:
+        def __init__(self, d):
+            self.d = onp.asarray(d, dtype=object if px._has_sym(d) else float)
+
+        def diagonal(self):
+            return self.d
+
+        def __mul__(self, v):
+            return self.d * v
+        __rmul__ = __mul__
+
+    import types
+    sp = types.ModuleType('scipy.sparse')
+    sp.diags = lambda d, *a, **k: _Diag(d)
+    sp.csc_matrix = lambda m, *a, **k: m
+    chol = types.ModuleType('optimism.SparseCholesky')
+    chol.SparseCholesky = _Chol
+    extra = dict(np=_NPS(), grad=grad, jvp=_never, vjp=_never, linearize=_never, jacfwd=lambda *a, **k: _never,
+                 value_and_grad=lambda *a, **k: _never, jacrev=lambda *a, **k: _never, hessian=lambda *a, **k: _never)
+    mod = px.load_module('optimism/Objective.py', shims={'optimism.JaxConfig': px.jaxconfig_shim(extra),
+                                                         'optimism.SparseCholesky': chol, 'scipy.sparse': sp})
+    return mod, f, g0, g1, _Diag
+
+
+def make_objective_state_harness(n=2):
+    """Objective.value / gradient / gradient_p must be the energy and its gradients at (x, objective.p) for the parameters
+    CURRENTLY installed — on every call of a sequence: same point (the very same array object, and an equal copy) before and
+    after objective.p was replaced, and again after a call at another point (state carried between calls must not show)."""
+    def fn(ex):
+        mod, f, g0, g1, _ = _load_objective_px(ex, n)
+        U = px.unwrap
+        x0 = ex.vec('x0', n)
+        x = ex.vec('x', n)
+        y = ex.vec('y', n)
+        pa, pb = ex.vec('p_first', 2), ex.vec('p_second', 2)
+        obj = mod.Objective(f, x0, pa)
+        ex.goal('plain_objective_scaling_is_one', Holds(obj.scaling == 1.0 and obj.invScaling == 1.0))
+        xc = onp.array(list(x), dtype=object if ex.symbolic else float)      # equal copy, another array object
+        seq = [('first_call', pa, x), ('same_array_again', pa, x), ('other_point', pa, y), ('back_to_equal_copy', pa, xc),
+               ('after_parameter_change_same_array', pb, x), ('after_parameter_change_equal_copy', pb, xc),
+               ('after_parameter_change_other_point', pb, y), ('parameters_changed_back', pa, x)]
+        for tag, p, z in seq:
+            obj.p = p
+            gv = obj.gradient(z)
+            ex.goal('gradient_is_grad_at_current_parameters[%s]' % tag, Eq(U(onp.asarray(gv, dtype=object)), U(g0(z, p))))
+            ex.goal('value_is_energy_at_current_parameters[%s]' % tag, Eq(U(obj.value(z)), U(f(z, p))))
+            ex.goal('gradient_p_is_grad_p_at_current_parameters[%s]' % tag, Eq(U(onp.asarray(obj.gradient_p(z), dtype=object)), U(g1(z, p))))
+    return fn
+
+
+def make_scaled_objective_harness(n=2):
+    """ScaledObjective: with a preconditioner strategy the scaling is sqrt(diag K0) and its inverse, kept on the object (the
+    driver maps the start point in and the solution out with objective.scaling / invScaling); value/gradient of the scaled
+    objective at scaling*x are the user's energy at x and invScaling * its gradient; without a strategy everything is 1."""
+    def fn(ex):
+        mod, f, g0, g1, Diag = _load_objective_px(ex, n)
+        U = px.unwrap
+        x0 = ex.vec('x0', n)
+        x = ex.vec('x', n)
+        p = ex.vec('p', 2)
+        d = ex.vec('Kdiag', n)
+        for di in d:
+            ex.assume(di > 0)
+
+        class Strategy:
+            def __init__(s):
+                s.inits = []
+
+            def initialize(s, xx, pp):
+                s.inits.append((xx, pp))
+
+            def precond_at_attempt(s, attempt):
+                return Diag(d)
+        st = Strategy()
+        obj = mod.ScaledObjective(f, x0, p, st)
+        sc = onp.asarray(obj.scaling, dtype=object) * onp.ones(n, dtype=object)
+        isc = onp.asarray(obj.invScaling, dtype=object) * onp.ones(n, dtype=object)
+        for i in range(n):
+            ex.goal('scaling_squared_is_the_preconditioner_diagonal[%d]' % i, Eq(U(sc[i] * sc[i]), U(d[i])))
+            ex.goal('scaling_positive[%d]' % i, Lt(0.0, U(sc[i])))
+            ex.goal('scaling_times_invScaling_is_one[%d]' % i, Eq(U(sc[i] * isc[i]), 1.0))
+        ex.goal('strategy_initialised_at_the_unscaled_start_point', Holds(len(st.inits) >= 1) if not st.inits else
+                Eq(U(onp.asarray(st.inits[0][0], dtype=object)), U(x0)))
+        # the energy seen through the object at the scaled image of x is the user's energy at x
+        ex.goal('get_value_is_the_users_energy', Eq(U(obj.get_value(x)), U(f(x, p))))
+        ex.goal('value_at_scaled_point_is_the_users_energy', Eq(U(obj.value(sc * x)), U(f(x, p))))
+        # what nonlinear_equation_solve does with the object: in with scaling, out with invScaling
+        xbar = obj.scaling * x
+        back = obj.invScaling * xbar
+        ex.goal('driver_round_trip_is_identity', Eq(U(onp.asarray(back, dtype=object) * onp.ones(n, dtype=object)), U(x)))
+        # without a strategy
+        obj2 = mod.ScaledObjective(f, x0, p, None)
+        ex.goal('no_strategy_means_unit_scaling', Holds(obj2.scaling == 1.0 and obj2.invScaling == 1.0))
+        ex.goal('no_strategy_get_value_is_the_users_energy', Eq(U(obj2.get_value(x)), U(f(x, p))))
+    return fn
+
+
+@obligation(P, 'O7.objective_classes_state_and_scaling', cap=300)
+def o7(h):
+    """the real source of Objective / ScaledObjective in PX (energy and its gradients uninterpreted functions of (x, p)): no state
+    carried between calls changes what value/gradient return; the scaling of a ScaledObjective is the one its closure uses"""
+    h.encoded('optimism.Objective:Objective.__init__', 'optimism.Objective:Objective.value', 'optimism.Objective:Objective.gradient',
+              'optimism.Objective:Objective.gradient_p', 'optimism.Objective:ScaledObjective.__init__',
+              'optimism.Objective:ScaledObjective.get_value', 'optimism.Objective:ScaledPrecondStrategy.__init__')
+    h.bounds('n=2 unknowns, 2 parameters; call sequences of 8 calls (same array, equal copy, other point, parameters replaced and restored)',
+             'preconditioner diagonal symbolic positive')
+    h.assume_note('jit = identity; grad(f,0), grad(f,1) and f are arbitrary functions of (x, p) (Ackermann consistency); jvp/vjp/jacfwd '
+                  'closures are constructed but not evaluated; SparseCholesky and scipy.sparse are inert stand-ins')
+    h.outside('hessian_vec and the parameter-sensitivity operators under call sequences (O5 covers them per call through the jaxpr)')
+    px.run_px(h, 'objective_state', make_objective_state_harness(), cap=60)
+    px.run_px(h, 'scaled_objective', make_scaled_objective_harness(), cap=60, sqrt_mode='goal', div_mode='goal')
+
+
 # ------------------------------------------------------------------------------------------ O6: the settings constructors
 def make_settings_harness():
     """get_settings(**kw) must put every keyword into the field of the same name (the solver reads the fields by name), and
